@@ -13,9 +13,10 @@ import (
 	"golang.org/x/tools/go/ssa"
 )
 
-// C20 — blobref text, encodings and ordering. Only the agreement of the
-// per-hash-family tables and of the sibling digest types is decided here; the
-// value-level round trips are left to dynamic checks.
+// C20 — blobref text, encodings and ordering. The agreement of the
+// per-hash-family tables and of the sibling digest types, and the agreement of
+// the digit alphabet between formatters and parsers (B-hex) are decided here;
+// the value-level round trips are left to dynamic checks.
 //
 // Everything is read from go/ssa of package pkg/blob: the package initializer
 // (the tables), the digest types' methods, and the few functions that consult
@@ -36,7 +37,8 @@ func init() {
 			"B-known — IsSupported returns true only as the ok of a metaFromString lookup; in parse every call of parseUnknown is guarded by allowAll or testRefType[name]; ParseKnown passes allowAll=false. " +
 			"B-len — every call through digestMeta.ctors/ctorb is dominated by len(hex)=2·meta.size and every call through digestMeta.ctor by len(b)=meta.size of the same meta (or takes h.Sum of the hash whose (type,Size()) selected the meta). " +
 			"B-default — blob.NewHash returns the newHash constructor of a supported family. " +
-			"NOT decided: that parse∘String, the JSON and the binary encodings round-trip; that Less agrees with byte order of the text forms; that equalString/hasPrefix agree with String() digit by digit; that the hex conversion tables (hexDigit/hexVal) are inverse; the behaviour of otherDigest (unknown families); that the standard-library constructors compute the named algorithm. These are value-level statements over all strings.",
+			"B-hex (writer/reader agreement of the digit alphabet) — writers: Ref.appendString (behind String, StringMinusOne, MarshalJSON) prints each nibble n of a digest byte as E[n] for one constant 16-character table E with distinct characters, read off the constant string indexed by a nibble of the byte (index expression evaluated for all 256 byte values) or off a frozen table of standard-library hex encoders; every other function of pkg/blob in which a nibble selects a character or that calls such an encoder (Ref.Digest, equalString/hasPrefix of all four digest types, the %x re-encoding in UnmarshalBinary) uses the same E. Readers: for the ctors and ctorb constructor of every metaFromString family, every use of the text parameter is followed (slices, conversions, package-local helpers) to the calls that consume its characters; a package-local digit function is evaluated over all 256 byte values by interpreting its go/ssa (pure integer/boolean code, constant strings, package-level constant arrays, stores to the bad flag or a (value, ok) result), a standard-library decoder is looked up in a frozen table; required: accepted characters = {E[0..15]} exactly and accepted c ↦ n with E[n] = c, and no success exit of the constructor (or helper) is reachable from a digit-judging call without crossing the branch on its verdict (bad flag read afterwards, ok result, helper result, decoder error). parseUnknown: the same, except that it may accept more than E (its refs are never of a supported family: B-known). Closure: a value of a family's digest type becomes a digestType only inside that family's ctor/ctors/ctorb functions or helpers only they call. blob.Pattern matches every printed digit at the first, a middle and the last digit position of a full ref of every family. " +
+			"NOT decided: that parse∘String, the JSON and the binary encodings round-trip as whole strings; that Less agrees with byte order of the text forms; that the decode loops and equalString/hasPrefix visit every digit position, in the order high nibble first (only the per-digit tables are compared, not the positions); the behaviour of otherDigest beyond its digit alphabet; that the standard-library constructors compute the named algorithm; whether blob.Pattern matches more than the parsers accept. These are value-level statements over all strings.",
 		RuleDocs: map[string]string{
 			"B-family":  "every MapUpdate of metaFromString in the package initializer: digestMeta fields vs digest type vs standard-library constants",
 			"B-type":    "every MapUpdate of metaFromType: key (reflect.TypeOf(F()), n) agrees with the target digestMeta; every family is reachable",
@@ -46,11 +48,12 @@ func init() {
 			"B-known":   "IsSupported / parse / ParseKnown consult metaFromString (and the test-name table) only",
 			"B-len":     "dynamic calls through digestMeta.ctor/ctors/ctorb are dominated by the matching length fact on the same meta",
 			"B-default": "NewHash's constructor belongs to a metaFromString family",
+			"B-hex":     "digit alphabet: every nibble→character table use and hex encoder call in pkg/blob prints with the table of appendString; the ctors/ctorb constructor of every family and parseUnknown read digits only through digit functions (go/ssa evaluated on all 256 bytes) or tabled decoders whose accepted set and values invert that table, and never report success past an untested bad-digit verdict; family digests are built only by the table's constructors; blob.Pattern matches every printed digit",
 		},
 		Run:       runC20,
 		DesignRef: "DESIGN.md §4 C20",
-		Technique: "static analysis: table agreement over the go/ssa package initializer (constants, types, function identities), constant agreement and dominating branch facts in the digest types' methods",
-		LevelText: "Decides only that the per-hash-family tables of pkg/blob agree with each other, with the digest types' methods and with the standard-library hash constants, and that the functions consulting them are guarded by the matching length/lookup facts. It does not decide any value-level statement of the property (round trips of text/JSON/binary forms, Less vs text order, digit-by-digit agreement of equalString/hasPrefix with String); those need dynamic checking.",
+		Technique: "static analysis: table agreement over the go/ssa package initializer (constants, types, function identities), constant agreement and dominating branch facts in the digest types' methods; writer/reader alphabet agreement by exhaustive abstract evaluation of the digit functions' go/ssa over the 256 byte values, data-flow of the text argument through package-local helpers, and path search from every digit-judging call to the success exits",
+		LevelText: "Decides that the per-hash-family tables of pkg/blob agree with each other, with the digest types' methods and with the standard-library hash constants, that the functions consulting them are guarded by the matching length/lookup facts, and that the set of characters (and their values) the digest parsers of supported families accept is exactly the set the formatters print, so that no string with a character outside the printed alphabet can parse as a supported ref. It does not decide the remaining value-level statements of the property (round trips of whole text/JSON/binary forms, Less vs text order, that every digit position is visited in the right order); those need dynamic checking.",
 	})
 }
 
@@ -70,10 +73,10 @@ var c20HashTable = map[string]struct{ pkg, ctor, sizeConst, reason string }{
 type c20Fam struct {
 	name   string
 	pos    token.Pos
-	val    ssa.Value             // the map value as written
-	meta   *ssa.Alloc            // the digestMeta it resolves to (nil if unresolved)
+	val    ssa.Value              // the map value as written
+	meta   *ssa.Alloc             // the digestMeta it resolves to (nil if unresolved)
 	field  map[string][]ssa.Value // values stored per field
-	T      *types.Named          // digest type (from ctor)
+	T      *types.Named           // digest type (from ctor)
 	size   int64
 	sizeOK bool
 	newFn  *ssa.Function
@@ -91,6 +94,12 @@ type c20Model struct {
 	gStr   *ssa.Global
 	gType  *ssa.Global
 	gTest  *ssa.Global
+	// B-hex
+	garr       map[*ssa.Global]map[int64]int64
+	garrErr    map[*ssa.Global]error
+	textMemo   map[c20TextKey]*c20TextSum
+	cgCallers  map[*ssa.Function]map[*ssa.Function]bool
+	cgValueUse map[*ssa.Function]bool
 }
 
 func (m *c20Fam) key() string { return c20Pkg + ".metaFromString[" + m.name + "]" }
@@ -107,6 +116,7 @@ func runC20(p *Program, r *Reporter) {
 	c20RuleKnown(m)
 	c20RuleLen(m)
 	c20RuleDefault(m)
+	c20RuleHex(m)
 }
 
 // ---------------------------------------------------------------------------
@@ -1678,4 +1688,2038 @@ func c20RuleDefault(m *c20Model) {
 		}
 		r.OK(rule, FuncKey(nh)+"#family", site, fmt.Sprintf("the recommended hash %s() is the constructor of family %q", FuncKeyAny(cal), fam.name))
 	}
+}
+
+// ---------------------------------------------------------------------------
+// B-hex — writer/reader agreement of the digest digit alphabet
+//
+// Writers: every place of pkg/blob where a nibble of a digest byte selects a
+// character (a constant string indexed by b>>4 / b&15, or a standard-library
+// hex encoder). Readers: every function that turns the text of a ref into
+// digest bytes (the ctors/ctorb constructors of every family, parseUnknown),
+// followed through package-local helpers to the per-character digit function,
+// which is evaluated over all 256 byte values by interpreting its go/ssa.
+
+// c20V is a value of the little interpreter.
+type c20V struct {
+	k byte // 'i' integer, 'b' bool, 's' string, 'p' pointer parameter (root index in i), 'g' address of g[i]
+	i int64
+	b bool
+	s string
+	g *ssa.Global
+}
+
+type c20Interp struct {
+	m      *c20Model
+	steps  int
+	stores map[int64][]c20V // root pointer argument → values stored through it
+	tuples map[ssa.Value][]c20V
+}
+
+func c20IntKind(t types.Type) (bits int, signed bool, ok bool) {
+	b, isB := t.Underlying().(*types.Basic)
+	if !isB || b.Info()&types.IsInteger == 0 {
+		return 0, false, false
+	}
+	switch b.Kind() {
+	case types.Int8:
+		return 8, true, true
+	case types.Int16:
+		return 16, true, true
+	case types.Int32:
+		return 32, true, true
+	case types.Int, types.Int64, types.UntypedInt, types.UntypedRune:
+		return 64, true, true
+	case types.Uint8:
+		return 8, false, true
+	case types.Uint16:
+		return 16, false, true
+	case types.Uint32:
+		return 32, false, true
+	case types.Uint, types.Uint64, types.Uintptr:
+		return 64, false, true
+	}
+	return 0, false, false
+}
+
+// c20Wrap reduces v to the value range of integer type t.
+func c20Wrap(v int64, t types.Type) (int64, error) {
+	bits, signed, ok := c20IntKind(t)
+	if !ok {
+		return 0, fmt.Errorf("arithmetic on non-integer type %s", t)
+	}
+	if bits == 64 {
+		if !signed && v < 0 {
+			return 0, fmt.Errorf("unsigned 64-bit value out of the interpreter's range")
+		}
+		return v, nil
+	}
+	mask := int64(1)<<uint(bits) - 1
+	v &= mask
+	if signed && v>>(uint(bits)-1) != 0 {
+		v -= int64(1) << uint(bits)
+	}
+	return v, nil
+}
+
+func c20ConstVal(c *ssa.Const) (c20V, error) {
+	if c.Value == nil {
+		return c20V{}, fmt.Errorf("nil/zero constant of type %s", c.Type())
+	}
+	switch c.Value.Kind() {
+	case constant.Bool:
+		return c20V{k: 'b', b: constant.BoolVal(c.Value)}, nil
+	case constant.String:
+		return c20V{k: 's', s: constant.StringVal(c.Value)}, nil
+	case constant.Int:
+		if n, ok := constant.Int64Val(c.Value); ok {
+			return c20V{k: 'i', i: n}, nil
+		}
+	}
+	return c20V{}, fmt.Errorf("constant %s not representable", c)
+}
+
+// globalArray reads a package-level integer array that is initialised
+// element by element with constants in the package initializer and only ever
+// read elsewhere. The result maps index → value (missing = 0).
+func (m *c20Model) globalArray(g *ssa.Global) (map[int64]int64, error) {
+	if m.garr == nil {
+		m.garr = map[*ssa.Global]map[int64]int64{}
+		m.garrErr = map[*ssa.Global]error{}
+	}
+	if a, ok := m.garr[g]; ok {
+		return a, m.garrErr[g]
+	}
+	out := map[int64]int64{}
+	var err error
+	nWhole := 0
+	fail := func(f string, a ...any) {
+		if err == nil {
+			err = fmt.Errorf(f, a...)
+		}
+	}
+	pt, _ := g.Type().Underlying().(*types.Pointer)
+	var arr *types.Array
+	if pt != nil {
+		arr, _ = pt.Elem().Underlying().(*types.Array)
+	}
+	if arr == nil {
+		fail("%s is not an array variable", g.Name())
+	} else if _, _, ok := c20IntKind(arr.Elem()); !ok {
+		fail("%s is not an array of integers", g.Name())
+	}
+	for _, fn := range m.fns {
+		isInit := fn.Synthetic == "package initializer"
+		for _, b := range fn.Blocks {
+			for _, in := range b.Instrs {
+				uses := false
+				for _, op := range in.Operands(nil) {
+					if op != nil && *op == ssa.Value(g) {
+						uses = true
+					}
+				}
+				if !uses {
+					continue
+				}
+				if st, ok := in.(*ssa.Store); ok && isInit && st.Addr == ssa.Value(g) {
+					// `var g = [N]T{…}`: the literal is built in a local and copied over
+					nWhole++
+					ld, _ := st.Val.(*ssa.UnOp)
+					var al *ssa.Alloc
+					if ld != nil && ld.Op == token.MUL {
+						al, _ = ld.X.(*ssa.Alloc)
+					}
+					if al == nil || nWhole > 1 {
+						fail("%s is assigned something other than one composite literal", g.Name())
+						continue
+					}
+					for _, u := range nonDebug(*al.Referrers()) {
+						switch x := u.(type) {
+						case *ssa.UnOp:
+							if x != ld {
+								fail("the literal of %s is read more than once", g.Name())
+							}
+						case *ssa.IndexAddr:
+							idx, okI := x.Index.(*ssa.Const)
+							for _, uu := range nonDebug(*x.Referrers()) {
+								es, okS := uu.(*ssa.Store)
+								var val *ssa.Const
+								if okS {
+									val, _ = es.Val.(*ssa.Const)
+								}
+								if !okS || !okI || es.Addr != ssa.Value(x) || idx.Value == nil || val == nil || val.Value == nil || val.Value.Kind() != constant.Int {
+									fail("the literal of %s has a non-constant index or element", g.Name())
+									continue
+								}
+								if _, dup := out[idx.Int64()]; dup {
+									fail("%s[%d] is initialised twice", g.Name(), idx.Int64())
+								}
+								out[idx.Int64()] = val.Int64()
+							}
+						default:
+							fail("the literal of %s is used by %T", g.Name(), u)
+						}
+					}
+					continue
+				}
+				ia, ok := in.(*ssa.IndexAddr)
+				if !ok || ia.X != ssa.Value(g) {
+					fail("%s is used by %T in %s, not only indexed", g.Name(), in, FuncKeyAny(fn))
+					continue
+				}
+				for _, u := range nonDebug(*ia.Referrers()) {
+					switch x := u.(type) {
+					case *ssa.UnOp:
+						if x.Op != token.MUL {
+							fail("element address of %s used by %s", g.Name(), x.Op)
+						}
+					case *ssa.Store:
+						idx, okI := ia.Index.(*ssa.Const)
+						val, okV := x.Val.(*ssa.Const)
+						if !isInit || x.Addr != ssa.Value(ia) || !okI || !okV || idx.Value == nil || val.Value == nil || val.Value.Kind() != constant.Int {
+							fail("%s is written in %s with non-constant index/value or after initialisation", g.Name(), FuncKeyAny(fn))
+							continue
+						}
+						if _, dup := out[idx.Int64()]; dup {
+							fail("%s[%d] is initialised twice", g.Name(), idx.Int64())
+						}
+						out[idx.Int64()] = val.Int64()
+					default:
+						fail("element address of %s escapes (%T) in %s", g.Name(), u, FuncKeyAny(fn))
+					}
+				}
+			}
+		}
+	}
+	m.garr[g], m.garrErr[g] = out, err
+	return out, err
+}
+
+type c20Panic struct{ why string }
+
+func (p *c20Panic) Error() string { return "panics: " + p.why }
+
+// call interprets fn on concrete arguments. Only the pure integer/boolean
+// fragment is supported; anything else is an error (⇒ Undecided).
+func (x *c20Interp) call(fn *ssa.Function, args []c20V, depth int) ([]c20V, error) {
+	if fn == nil || fn.Blocks == nil {
+		return nil, fmt.Errorf("no body to interpret")
+	}
+	if depth > 3 {
+		return nil, fmt.Errorf("call depth exceeded in %s", FuncKeyAny(fn))
+	}
+	if len(args) != len(fn.Params) {
+		return nil, fmt.Errorf("arity mismatch calling %s", FuncKeyAny(fn))
+	}
+	env := map[ssa.Value]c20V{}
+	for i, p := range fn.Params {
+		env[p] = args[i]
+	}
+	get := func(v ssa.Value) (c20V, error) {
+		switch t := v.(type) {
+		case *ssa.Const:
+			cv, err := c20ConstVal(t)
+			if err != nil {
+				return cv, err
+			}
+			if cv.k == 'i' {
+				if _, _, ok := c20IntKind(t.Type()); ok {
+					cv.i, err = c20Wrap(cv.i, t.Type())
+				}
+			}
+			return cv, err
+		case *ssa.Global:
+			return c20V{k: 'g', g: t, i: -1}, nil
+		}
+		if r, ok := env[v]; ok {
+			return r, nil
+		}
+		return c20V{}, fmt.Errorf("value %s (%T) of %s is outside the interpretable fragment", v.Name(), v, FuncKeyAny(fn))
+	}
+	var prev *ssa.BasicBlock
+	b := fn.Blocks[0]
+	for {
+		var next *ssa.BasicBlock
+		// phis read the environment of the predecessor simultaneously
+		phiVals := map[ssa.Value]c20V{}
+		for _, in := range b.Instrs {
+			ph, ok := in.(*ssa.Phi)
+			if !ok {
+				break
+			}
+			idx := -1
+			for i, p := range b.Preds {
+				if p == prev {
+					idx = i
+				}
+			}
+			if idx < 0 {
+				return nil, fmt.Errorf("phi without predecessor")
+			}
+			v, err := get(ph.Edges[idx])
+			if err != nil {
+				return nil, err
+			}
+			phiVals[ph] = v
+		}
+		for k, v := range phiVals {
+			env[k] = v
+		}
+		for _, in := range b.Instrs {
+			x.steps++
+			if x.steps > 20000 {
+				return nil, fmt.Errorf("step limit exceeded in %s", FuncKeyAny(fn))
+			}
+			switch t := in.(type) {
+			case *ssa.Phi, *ssa.DebugRef:
+			case *ssa.BinOp:
+				a, err := get(t.X)
+				if err != nil {
+					return nil, err
+				}
+				c, err := get(t.Y)
+				if err != nil {
+					return nil, err
+				}
+				r, err := c20BinOp(t.Op, a, c, t.Type())
+				if err != nil {
+					return nil, err
+				}
+				env[t] = r
+			case *ssa.UnOp:
+				a, err := get(t.X)
+				if err != nil {
+					return nil, err
+				}
+				switch {
+				case t.Op == token.NOT && a.k == 'b':
+					env[t] = c20V{k: 'b', b: !a.b}
+				case t.Op == token.SUB && a.k == 'i':
+					n, err := c20Wrap(-a.i, t.Type())
+					if err != nil {
+						return nil, err
+					}
+					env[t] = c20V{k: 'i', i: n}
+				case t.Op == token.XOR && a.k == 'i':
+					n, err := c20Wrap(^a.i, t.Type())
+					if err != nil {
+						return nil, err
+					}
+					env[t] = c20V{k: 'i', i: n}
+				case t.Op == token.MUL && a.k == 'g' && a.i >= 0:
+					arr, err := x.m.globalArray(a.g)
+					if err != nil {
+						return nil, err
+					}
+					env[t] = c20V{k: 'i', i: arr[a.i]}
+				default:
+					return nil, fmt.Errorf("%s: unary %s on this operand is outside the interpretable fragment (the digit function must be a pure function of its byte)", FuncKeyAny(fn), t.Op)
+				}
+			case *ssa.Convert:
+				a, err := get(t.X)
+				if err != nil {
+					return nil, err
+				}
+				if a.k != 'i' {
+					return nil, fmt.Errorf("conversion of a non-integer in %s", FuncKeyAny(fn))
+				}
+				n, err := c20Wrap(a.i, t.Type())
+				if err != nil {
+					return nil, err
+				}
+				env[t] = c20V{k: 'i', i: n}
+			case *ssa.ChangeType:
+				a, err := get(t.X)
+				if err != nil {
+					return nil, err
+				}
+				env[t] = a
+			case *ssa.Index:
+				a, err := get(t.X)
+				if err != nil {
+					return nil, err
+				}
+				i, err := get(t.Index)
+				if err != nil {
+					return nil, err
+				}
+				if a.k != 's' || i.k != 'i' {
+					return nil, fmt.Errorf("lookup in something other than a constant string in %s", FuncKeyAny(fn))
+				}
+				if i.i < 0 || i.i >= int64(len(a.s)) {
+					return nil, &c20Panic{fmt.Sprintf("index %d out of range of a %d-byte constant string", i.i, len(a.s))}
+				}
+				env[t] = c20V{k: 'i', i: int64(a.s[i.i])}
+			case *ssa.IndexAddr:
+				a, err := get(t.X)
+				if err != nil {
+					return nil, err
+				}
+				i, err := get(t.Index)
+				if err != nil {
+					return nil, err
+				}
+				if a.k != 'g' || a.i >= 0 || i.k != 'i' {
+					return nil, fmt.Errorf("indexing something other than a package-level array in %s", FuncKeyAny(fn))
+				}
+				arrT := a.g.Type().Underlying().(*types.Pointer).Elem().Underlying()
+				if at, ok := arrT.(*types.Array); !ok {
+					return nil, fmt.Errorf("%s is not an array", a.g.Name())
+				} else if i.i < 0 || i.i >= at.Len() {
+					return nil, &c20Panic{fmt.Sprintf("index %d out of range of %s", i.i, a.g.Name())}
+				}
+				env[t] = c20V{k: 'g', g: a.g, i: i.i}
+			case *ssa.Store:
+				a, err := get(t.Addr)
+				if err != nil {
+					return nil, err
+				}
+				v, err := get(t.Val)
+				if err != nil {
+					return nil, err
+				}
+				if a.k != 'p' {
+					return nil, fmt.Errorf("store to something other than a pointer parameter in %s", FuncKeyAny(fn))
+				}
+				x.stores[a.i] = append(x.stores[a.i], v)
+			case *ssa.Call:
+				cal := t.Call.StaticCallee()
+				if bi, ok := t.Call.Value.(*ssa.Builtin); ok && bi.Name() == "len" && len(t.Call.Args) == 1 {
+					a, err := get(t.Call.Args[0])
+					if err != nil {
+						return nil, err
+					}
+					if a.k != 's' {
+						return nil, fmt.Errorf("len of a non-constant in %s", FuncKeyAny(fn))
+					}
+					env[t] = c20V{k: 'i', i: int64(len(a.s))}
+					break
+				}
+				if cal == nil || t.Call.IsInvoke() || !x.m.inPkg(cal) {
+					return nil, fmt.Errorf("%s calls %s, which is outside the interpretable fragment", FuncKeyAny(fn), t.Call.Value.Name())
+				}
+				var as []c20V
+				for _, av := range t.Call.Args {
+					a, err := get(av)
+					if err != nil {
+						return nil, err
+					}
+					as = append(as, a)
+				}
+				rs, err := x.call(cal, as, depth+1)
+				if err != nil {
+					return nil, err
+				}
+				if len(rs) == 1 {
+					env[t] = rs[0]
+				} else {
+					x.tuples[t] = rs
+				}
+			case *ssa.Extract:
+				rs, ok := x.tuples[t.Tuple]
+				if !ok || t.Index >= len(rs) {
+					return nil, fmt.Errorf("extract of an uninterpreted tuple in %s", FuncKeyAny(fn))
+				}
+				env[t] = rs[t.Index]
+			case *ssa.If:
+				c, err := get(t.Cond)
+				if err != nil {
+					return nil, err
+				}
+				if c.k != 'b' {
+					return nil, fmt.Errorf("branch on a non-boolean")
+				}
+				if c.b {
+					next = b.Succs[0]
+				} else {
+					next = b.Succs[1]
+				}
+			case *ssa.Jump:
+				next = b.Succs[0]
+			case *ssa.Return:
+				var out []c20V
+				for _, rv := range t.Results {
+					v, err := get(rv)
+					if err != nil {
+						return nil, err
+					}
+					out = append(out, v)
+				}
+				return out, nil
+			case *ssa.Panic:
+				return nil, &c20Panic{"explicit panic"}
+			default:
+				return nil, fmt.Errorf("%s contains %T, which is outside the interpretable fragment (pure integer/boolean code, constant tables, stores to a flag parameter)", FuncKeyAny(fn), in)
+			}
+		}
+		if next == nil {
+			return nil, fmt.Errorf("block without terminator")
+		}
+		prev, b = b, next
+	}
+}
+
+func c20BinOp(op token.Token, a, c c20V, rt types.Type) (c20V, error) {
+	if a.k == 'b' && c.k == 'b' {
+		switch op {
+		case token.EQL:
+			return c20V{k: 'b', b: a.b == c.b}, nil
+		case token.NEQ:
+			return c20V{k: 'b', b: a.b != c.b}, nil
+		case token.AND:
+			return c20V{k: 'b', b: a.b && c.b}, nil
+		case token.OR:
+			return c20V{k: 'b', b: a.b || c.b}, nil
+		}
+	}
+	if a.k != 'i' || c.k != 'i' {
+		return c20V{}, fmt.Errorf("binary %s on operands outside the integer/boolean fragment", op)
+	}
+	switch op {
+	case token.EQL:
+		return c20V{k: 'b', b: a.i == c.i}, nil
+	case token.NEQ:
+		return c20V{k: 'b', b: a.i != c.i}, nil
+	case token.LSS:
+		return c20V{k: 'b', b: a.i < c.i}, nil
+	case token.LEQ:
+		return c20V{k: 'b', b: a.i <= c.i}, nil
+	case token.GTR:
+		return c20V{k: 'b', b: a.i > c.i}, nil
+	case token.GEQ:
+		return c20V{k: 'b', b: a.i >= c.i}, nil
+	}
+	var n int64
+	switch op {
+	case token.ADD:
+		n = a.i + c.i
+	case token.SUB:
+		n = a.i - c.i
+	case token.MUL:
+		n = a.i * c.i
+	case token.QUO:
+		if c.i == 0 {
+			return c20V{}, &c20Panic{"division by zero"}
+		}
+		n = a.i / c.i
+	case token.REM:
+		if c.i == 0 {
+			return c20V{}, &c20Panic{"division by zero"}
+		}
+		n = a.i % c.i
+	case token.AND:
+		n = a.i & c.i
+	case token.OR:
+		n = a.i | c.i
+	case token.XOR:
+		n = a.i ^ c.i
+	case token.AND_NOT:
+		n = a.i &^ c.i
+	case token.SHL:
+		if c.i < 0 {
+			return c20V{}, &c20Panic{"negative shift"}
+		}
+		if c.i >= 64 {
+			n = 0
+		} else {
+			n = a.i << uint(c.i)
+		}
+	case token.SHR:
+		if c.i < 0 {
+			return c20V{}, &c20Panic{"negative shift"}
+		}
+		if c.i >= 64 {
+			if a.i < 0 {
+				n = -1
+			}
+		} else {
+			n = a.i >> uint(c.i)
+		}
+	default:
+		return c20V{}, fmt.Errorf("binary operator %s not interpreted", op)
+	}
+	w, err := c20Wrap(n, rt)
+	return c20V{k: 'i', i: w}, err
+}
+
+// inPkg: fn (or the generic it instantiates) is declared in pkg/blob.
+func (m *c20Model) inPkg(fn *ssa.Function) bool {
+	if fn == nil {
+		return false
+	}
+	if fn.Pkg == m.pkg {
+		return true
+	}
+	if o := fn.Origin(); o != nil && o.Pkg == m.pkg {
+		return true
+	}
+	if fn.Parent() != nil {
+		return m.inPkg(fn.Parent())
+	}
+	return false
+}
+
+// ---- writers ---------------------------------------------------------------
+
+// c20Emit is one place where a nibble selects a character.
+type c20Emit struct {
+	fn     *ssa.Function
+	pos    token.Pos
+	hi, lo bool     // which nibble of the byte selects the character
+	e      [16]byte // nibble → character
+	what   string
+}
+
+// c20ExprLeaf finds the single non-constant leaf of an integer expression
+// tree built from BinOp/UnOp/Convert; nil when there are none or several.
+func c20ExprLeaf(v ssa.Value) (leaf ssa.Value, ok bool) {
+	ok = true
+	var walk func(v ssa.Value, d int)
+	walk = func(v ssa.Value, d int) {
+		if d > 12 {
+			ok = false
+			return
+		}
+		switch t := v.(type) {
+		case *ssa.Const:
+		case *ssa.BinOp:
+			walk(t.X, d+1)
+			walk(t.Y, d+1)
+		case *ssa.Convert:
+			walk(t.X, d+1)
+		case *ssa.ChangeType:
+			walk(t.X, d+1)
+		case *ssa.UnOp:
+			if t.Op == token.MUL {
+				if leaf != nil && leaf != v {
+					ok = false
+				}
+				leaf = v
+				return
+			}
+			walk(t.X, d+1)
+		default:
+			if leaf != nil && leaf != v {
+				ok = false
+			}
+			leaf = v
+		}
+	}
+	walk(v, 0)
+	return leaf, ok && leaf != nil
+}
+
+// c20EvalExpr evaluates such a tree with leaf bound to n.
+func c20EvalExpr(v, leaf ssa.Value, n int64) (int64, error) {
+	if v == leaf {
+		return n, nil
+	}
+	switch t := v.(type) {
+	case *ssa.Const:
+		cv, err := c20ConstVal(t)
+		if err != nil || cv.k != 'i' {
+			return 0, fmt.Errorf("non-integer constant in index expression")
+		}
+		if _, _, ok := c20IntKind(t.Type()); ok {
+			return c20Wrap(cv.i, t.Type())
+		}
+		return cv.i, nil
+	case *ssa.BinOp:
+		a, err := c20EvalExpr(t.X, leaf, n)
+		if err != nil {
+			return 0, err
+		}
+		c, err := c20EvalExpr(t.Y, leaf, n)
+		if err != nil {
+			return 0, err
+		}
+		r, err := c20BinOp(t.Op, c20V{k: 'i', i: a}, c20V{k: 'i', i: c}, t.Type())
+		if err != nil {
+			return 0, err
+		}
+		if r.k != 'i' {
+			return 0, fmt.Errorf("boolean inside an index expression")
+		}
+		return r.i, nil
+	case *ssa.Convert:
+		a, err := c20EvalExpr(t.X, leaf, n)
+		if err != nil {
+			return 0, err
+		}
+		return c20Wrap(a, t.Type())
+	case *ssa.ChangeType:
+		return c20EvalExpr(t.X, leaf, n)
+	case *ssa.UnOp:
+		a, err := c20EvalExpr(t.X, leaf, n)
+		if err != nil {
+			return 0, err
+		}
+		switch t.Op {
+		case token.SUB:
+			return c20Wrap(-a, t.Type())
+		case token.XOR:
+			return c20Wrap(^a, t.Type())
+		}
+	}
+	return 0, fmt.Errorf("index expression outside the interpretable fragment (%T)", v)
+}
+
+// c20StdEncoders: standard-library functions that write bytes as hex text.
+// Frozen table, one line of reason each (documented behaviour of the Go
+// standard library, stable since Go 1).
+var c20StdEncoders = map[string]struct{ table, reason string }{
+	"encoding/hex.EncodeToString": {"0123456789abcdef", "encoding/hex: 'hextable = \"0123456789abcdef\"', high nibble first"},
+	"encoding/hex.Encode":         {"0123456789abcdef", "encoding/hex: same table as EncodeToString"},
+	"encoding/hex.AppendEncode":   {"0123456789abcdef", "encoding/hex: same table as EncodeToString"},
+}
+
+// c20FmtVerbs: fmt verbs that print a byte string as hex, two digits per byte.
+var c20FmtVerbs = map[byte]struct{ table, reason string }{
+	'x': {"0123456789abcdef", "fmt: %x on strings and byte slices is lower-case hex, two characters per byte"},
+	'X': {"0123456789ABCDEF", "fmt: %X on strings and byte slices is upper-case hex, two characters per byte"},
+}
+
+func c20IsByteString(t types.Type) bool {
+	switch u := t.Underlying().(type) {
+	case *types.Basic:
+		return u.Info()&types.IsString != 0
+	case *types.Slice:
+		b, ok := u.Elem().Underlying().(*types.Basic)
+		return ok && b.Kind() == types.Uint8
+	case *types.Array:
+		b, ok := u.Elem().Underlying().(*types.Basic)
+		return ok && b.Kind() == types.Uint8
+	}
+	return false
+}
+
+func c20CalleeName(cal *ssa.Function) string {
+	if cal == nil || cal.Pkg == nil || cal.Signature.Recv() != nil {
+		return ""
+	}
+	return cal.Pkg.Pkg.Path() + "." + cal.Name()
+}
+
+// c20VariadicArgs returns the element values of the `[]any{...}` literal
+// passed as the variadic argument v (nil if it cannot be read).
+func c20VariadicArgs(v ssa.Value) []ssa.Value {
+	sl, ok := v.(*ssa.Slice)
+	if !ok {
+		return nil
+	}
+	al, ok := sl.X.(*ssa.Alloc)
+	if !ok {
+		return nil
+	}
+	byIdx := map[int64]ssa.Value{}
+	for _, u := range nonDebug(*al.Referrers()) {
+		ia, ok := u.(*ssa.IndexAddr)
+		if !ok {
+			continue
+		}
+		idx, ok := ConstInt(ia.Index)
+		if !ok {
+			return nil
+		}
+		for _, uu := range nonDebug(*ia.Referrers()) {
+			if st, ok := uu.(*ssa.Store); ok && st.Addr == ssa.Value(ia) {
+				byIdx[idx] = st.Val
+			}
+		}
+	}
+	out := make([]ssa.Value, len(byIdx))
+	for i := range out {
+		v, ok := byIdx[int64(i)]
+		if !ok {
+			return nil
+		}
+		out[i] = v
+	}
+	return out
+}
+
+// emitSites lists the nibble→character sites of fn and the reasons why a
+// candidate site could not be read.
+// soft lists constant-string lookups whose index does not range over one byte:
+// they are reported only for functions known to handle digest digits.
+func (m *c20Model) emitSites(fn *ssa.Function) (sites []c20Emit, und, soft []string) {
+	for _, b := range fn.Blocks {
+		for _, in := range b.Instrs {
+			switch t := in.(type) {
+			case *ssa.Index:
+				cs, ok := t.X.(*ssa.Const)
+				if !ok || cs.Value == nil || cs.Value.Kind() != constant.String {
+					continue
+				}
+				tab := constant.StringVal(cs.Value)
+				if _, isConst := t.Index.(*ssa.Const); isConst {
+					continue
+				}
+				leaf, ok := c20ExprLeaf(t.Index)
+				if !ok {
+					soft = append(soft, fmt.Sprintf("constant string %q is indexed by an expression with several variables", c20Short(tab)))
+					continue
+				}
+				if bits, signed, ok := c20IntKind(leaf.Type()); !ok || bits != 8 || signed {
+					soft = append(soft, fmt.Sprintf("constant string %q is indexed by an expression over a %s, not over one byte; its range cannot be enumerated", c20Short(tab), leaf.Type()))
+					continue
+				}
+				var ch [256]byte
+				bad := ""
+				idxSeen := map[int64]bool{}
+				for n := 0; n < 256 && bad == ""; n++ {
+					idx, err := c20EvalExpr(t.Index, leaf, int64(n))
+					idxSeen[idx] = true
+					switch {
+					case err != nil:
+						bad = err.Error()
+					case idx < 0 || idx >= int64(len(tab)):
+						bad = fmt.Sprintf("index %d out of range of %q for byte %#x", idx, c20Short(tab), n)
+					default:
+						ch[n] = tab[idx]
+					}
+				}
+				if bad != "" {
+					und = append(und, bad)
+					continue
+				}
+				injective := len(idxSeen) == 256
+				e := c20Emit{fn: fn, pos: t.Pos(), what: fmt.Sprintf("constant table %q", c20Short(tab))}
+				e.hi, e.lo = true, true
+				var eh, el [16]byte
+				for n := 0; n < 16; n++ {
+					eh[n], el[n] = ch[n<<4], ch[n]
+				}
+				for n := 0; n < 256; n++ {
+					if ch[n] != eh[n>>4] {
+						e.hi = false
+					}
+					if ch[n] != el[n&15] {
+						e.lo = false
+					}
+				}
+				switch {
+				case e.hi && e.lo: // constant character: not a digit site
+					continue
+				case e.hi:
+					e.e = eh
+				case e.lo:
+					e.e = el
+				case injective:
+					// a table keyed by the whole byte (a translation/decoding table) is not a
+					// place where a nibble selects a digit
+					continue
+				default:
+					und = append(und, fmt.Sprintf("the character taken from the %d-byte constant table %q depends on both nibbles of the byte, yet not on the whole byte; not a hex digit site the analysis understands", len(tab), c20Short(tab)))
+					continue
+				}
+				sites = append(sites, e)
+			case ssa.CallInstruction:
+				cc := t.Common()
+				name := c20CalleeName(cc.StaticCallee())
+				if enc, ok := c20StdEncoders[name]; ok {
+					e := c20Emit{fn: fn, pos: t.Pos(), hi: true, lo: true, what: name + " (" + enc.reason + ")"}
+					copy(e.e[:], enc.table)
+					sites = append(sites, e)
+					continue
+				}
+				// fmt.*printf / Appendf with a constant format
+				if !strings.HasPrefix(name, "fmt.") {
+					continue
+				}
+				fi := -1
+				switch strings.TrimPrefix(name, "fmt.") {
+				case "Sprintf", "Errorf", "Printf":
+					fi = 0
+				case "Fprintf", "Appendf":
+					fi = 1
+				default:
+					continue
+				}
+				if fi+1 >= len(cc.Args) {
+					continue
+				}
+				format, ok := ConstString(cc.Args[fi])
+				if !ok {
+					continue
+				}
+				verbs := c20Verbs(format)
+				hasHex := false
+				for _, vb := range verbs {
+					if _, ok := c20FmtVerbs[vb]; ok {
+						hasHex = true
+					}
+				}
+				if !hasHex {
+					continue
+				}
+				args := c20VariadicArgs(cc.Args[fi+1])
+				if args == nil || len(args) != len(verbs) {
+					und = append(und, fmt.Sprintf("%s with format %q: cannot pair the hex verb with its argument", name, format))
+					continue
+				}
+				for i, vb := range verbs {
+					enc, ok := c20FmtVerbs[vb]
+					if !ok {
+						continue
+					}
+					at := args[i].Type()
+					if mi, ok := args[i].(*ssa.MakeInterface); ok {
+						at = mi.X.Type()
+					}
+					if !c20IsByteString(at) {
+						continue // %x of a number: not a digest
+					}
+					e := c20Emit{fn: fn, pos: t.Pos(), hi: true, lo: true, what: fmt.Sprintf("%s %%%c (%s)", name, vb, enc.reason)}
+					copy(e.e[:], enc.table)
+					sites = append(sites, e)
+				}
+			}
+		}
+	}
+	return sites, und, soft
+}
+
+// c20Verbs lists the verb letters of a format string (flags, width and
+// precision skipped; "%%" ignored; explicit argument indexes make it give up).
+func c20Verbs(format string) []byte {
+	var out []byte
+	for i := 0; i < len(format); i++ {
+		if format[i] != '%' {
+			continue
+		}
+		i++
+		for i < len(format) && strings.IndexByte("+-# 0123456789.*[]", format[i]) >= 0 {
+			i++
+		}
+		if i < len(format) && format[i] != '%' {
+			out = append(out, format[i])
+		}
+	}
+	return out
+}
+
+// ---- readers ---------------------------------------------------------------
+
+// c20StdDecoders: standard-library functions that read hex text. Frozen table,
+// one line of reason each. arg = index of the text argument. Every entry is
+// more liberal than a lower-case-only digit function; the table exists so that
+// the report can say exactly which characters become acceptable.
+var c20StdDecoders = map[string]struct {
+	arg            int
+	accept, reason string
+}{
+	"encoding/hex.Decode":       {1, "0123456789abcdefABCDEF", "encoding/hex: fromHexChar accepts '0'-'9', 'a'-'f' and 'A'-'F'"},
+	"encoding/hex.DecodeString": {0, "0123456789abcdefABCDEF", "encoding/hex: same decoder as Decode"},
+	"encoding/hex.AppendDecode": {1, "0123456789abcdefABCDEF", "encoding/hex: same decoder as Decode"},
+	"strconv.ParseUint":         {0, "0123456789abcdefABCDEF", "strconv: with base 16, digits are matched case-insensitively ('a'-'z' and 'A'-'Z' lowered alike)"},
+	"strconv.ParseInt":          {0, "0123456789abcdefABCDEF+-", "strconv: as ParseUint, plus an optional leading sign"},
+	"fmt.Sscanf":                {0, "0123456789abcdefABCDEF \t\r\n+-", "fmt: scanning %x accepts both cases of hex digits (and spaces/sign according to the format)"},
+	"fmt.Sscan":                 {0, "0123456789abcdefABCDEF \t\r\n+-_xX", "fmt: scanning into a []byte/integer accepts both cases of hex digits, base prefixes, spaces"},
+}
+
+// c20Decoder is one way characters of the text are turned into digit values.
+type c20Decoder struct {
+	name string    // callee
+	pos  token.Pos // one call site
+	std  bool      // standard library: only ok[] is meaningful
+	ok   [256]bool
+	val  [256]int64
+	err  string // could not be evaluated
+}
+
+// c20Src is a place where the judgement "all digits read so far are good" is
+// available in a function: a digit-function call (flag cell or ok result), a
+// package-local helper call (flag cell, bool or error result) or a
+// standard-library decoder call (error result).
+type c20Src struct {
+	instr  ssa.Instruction
+	what   string
+	cell   ssa.Value // the *bool flag passed along (nil if judged by result)
+	res    ssa.Value // bool or error result carrying the judgement (nil if by flag, or discarded)
+	resErr bool
+}
+
+type c20TextKey struct {
+	fn  *ssa.Function
+	arg int
+}
+
+// c20TextSum summarises how fn treats the text passed as parameter arg.
+type c20TextSum struct {
+	decs      []*c20Decoder
+	und       []string // the analysis cannot follow
+	bad       []string // definite: success without the digits having been judged
+	flagParam int      // ≥0: fn reports bad digits through this *bool parameter
+	vIdx      int      // result index carrying fn's verdict (-1: none)
+	vErr      bool     // verdict is an error (nil = good) rather than a bool
+	reads     int      // character reads + decoder calls seen
+}
+
+func c20VerdictIndex(sig *types.Signature) (idx int, isErr bool) {
+	idx = -1
+	n := 0
+	for i := 0; i < sig.Results().Len(); i++ {
+		t := sig.Results().At(i).Type()
+		if b, ok := t.Underlying().(*types.Basic); ok && b.Kind() == types.Bool {
+			idx, isErr = i, false
+			n++
+		} else if types.Identical(t, types.Universe.Lookup("error").Type()) {
+			idx, isErr = i, true
+			n++
+		}
+	}
+	if n != 1 {
+		return -1, false
+	}
+	return idx, isErr
+}
+
+func c20IsBoolPtr(t types.Type) bool {
+	p, ok := t.Underlying().(*types.Pointer)
+	if !ok {
+		return false
+	}
+	b, ok := p.Elem().Underlying().(*types.Basic)
+	return ok && b.Kind() == types.Bool
+}
+
+// evalDecoder evaluates digit function g over all values of its parameter k.
+// The argument passed is the expression argExpr over the raw character root.
+func (m *c20Model) evalDecoder(g *ssa.Function, k int, call ssa.CallInstruction, argExpr, root ssa.Value) (*c20Decoder, *c20Src) {
+	d := &c20Decoder{name: FuncKeyAny(g), pos: call.Pos()}
+	if argExpr != root {
+		d.name += " (applied to the transformed character)"
+	}
+	src := &c20Src{instr: call, what: "digit function " + d.name}
+	cc := call.Common()
+	flag := -1
+	for i, p := range g.Params {
+		if c20IsBoolPtr(p.Type()) {
+			if flag >= 0 {
+				d.err = "the digit function has several *bool parameters"
+				return d, src
+			}
+			flag = i
+		}
+	}
+	okIdx := -1
+	rs := g.Signature.Results()
+	if flag < 0 {
+		if rs.Len() == 2 {
+			if b, ok := rs.At(1).Type().Underlying().(*types.Basic); ok && b.Kind() == types.Bool {
+				okIdx = 1
+			}
+		}
+		if okIdx < 0 {
+			d.err = "cannot tell how the digit function reports a bad character (neither a *bool flag parameter nor a (value, ok) result)"
+			return d, src
+		}
+		if cv := call.Value(); cv != nil {
+			src.res = ResultValue(cv, okIdx)
+		}
+	} else {
+		src.cell = cc.Args[flag]
+	}
+	if rs.Len() == 0 {
+		d.err = "the digit function returns no value"
+		return d, src
+	}
+	if _, _, ok := c20IntKind(rs.At(0).Type()); !ok {
+		d.err = "the digit function's first result is not an integer"
+		return d, src
+	}
+	base := make([]c20V, len(g.Params))
+	for i := range g.Params {
+		switch {
+		case i == k:
+		case i == flag:
+			base[i] = c20V{k: 'p', i: int64(i)}
+		default:
+			c, ok := cc.Args[i].(*ssa.Const)
+			if !ok {
+				d.err = fmt.Sprintf("argument %d of the digit function is not a constant", i)
+				return d, src
+			}
+			cv, err := c20ConstVal(c)
+			if err != nil {
+				d.err = err.Error()
+				return d, src
+			}
+			base[i] = cv
+		}
+	}
+	if _, _, ok := c20IntKind(g.Params[k].Type()); !ok {
+		d.err = fmt.Sprintf("the character parameter of the digit function is a %s", g.Params[k].Type())
+		return d, src
+	}
+	if bits, signed, ok := c20IntKind(root.Type()); !ok || bits != 8 || signed {
+		d.err = fmt.Sprintf("the character read from the text is a %s, not a byte", root.Type())
+		return d, src
+	}
+	for n := 0; n < 256; n++ {
+		args := append([]c20V(nil), base...)
+		cv, err := c20EvalExpr(argExpr, root, int64(n))
+		if err != nil {
+			d.err = "the argument of the digit function: " + err.Error()
+			return d, src
+		}
+		if cv, err = c20Wrap(cv, g.Params[k].Type()); err != nil {
+			d.err = err.Error()
+			return d, src
+		}
+		args[k] = c20V{k: 'i', i: cv}
+		x := &c20Interp{m: m, stores: map[int64][]c20V{}, tuples: map[ssa.Value][]c20V{}}
+		out, err := x.call(g, args, 0)
+		if err != nil {
+			d.err = fmt.Sprintf("for byte %#02x: %v", n, err)
+			return d, src
+		}
+		if len(out) == 0 || out[0].k != 'i' {
+			d.err = "the digit function's result is not an integer"
+			return d, src
+		}
+		d.val[n] = out[0].i
+		if flag >= 0 {
+			d.ok[n] = true
+			for _, st := range x.stores[int64(flag)] {
+				if st.k != 'b' {
+					d.err = "non-boolean stored through the flag"
+					return d, src
+				}
+				if !st.b {
+					d.err = fmt.Sprintf("for byte %#02x the digit function stores false through the flag: an earlier bad digit would be forgotten; cannot model", n)
+					return d, src
+				}
+				d.ok[n] = false
+			}
+		} else {
+			if out[okIdx].k != 'b' {
+				d.err = "ok result is not a boolean"
+				return d, src
+			}
+			d.ok[n] = out[okIdx].b
+		}
+	}
+	return d, src
+}
+
+// textSummary follows the text parameter arg of fn to everything that reads it.
+func (m *c20Model) textSummary(fn *ssa.Function, arg int, depth int) *c20TextSum {
+	key := c20TextKey{fn, arg}
+	if m.textMemo == nil {
+		m.textMemo = map[c20TextKey]*c20TextSum{}
+	}
+	if s, ok := m.textMemo[key]; ok {
+		return s
+	}
+	s := &c20TextSum{flagParam: -1, vIdx: -1}
+	m.textMemo[key] = s
+	undf := func(f string, a ...any) { s.und = append(s.und, FuncKeyAny(fn)+": "+fmt.Sprintf(f, a...)) }
+	if fn.Blocks == nil {
+		undf("no body to analyse")
+		return s
+	}
+	if depth > 4 {
+		undf("helper nesting too deep")
+		return s
+	}
+	if fn.Recover != nil {
+		undf("uses defer/recover; cannot follow its exits")
+		return s
+	}
+	for _, b := range fn.Blocks {
+		for _, in := range b.Instrs {
+			switch in.(type) {
+			case *ssa.Defer, *ssa.RunDefers, *ssa.Go:
+				undf("uses defer/go; cannot follow its exits")
+				return s
+			}
+		}
+	}
+	if arg >= len(fn.Params) {
+		undf("parameter %d does not exist", arg)
+		return s
+	}
+	var srcs []*c20Src
+	decByCallee := map[string]*c20Decoder{}
+	views := map[ssa.Value]bool{}
+	chars := map[ssa.Value]ssa.Value{} // character-derived value → the raw character it is computed from
+	var vwork, cwork []ssa.Value
+	addView := func(v ssa.Value) {
+		if !views[v] {
+			views[v] = true
+			vwork = append(vwork, v)
+		}
+	}
+	addDerived := func(v, root ssa.Value) {
+		if _, ok := chars[v]; !ok {
+			chars[v] = root
+			cwork = append(cwork, v)
+		}
+	}
+	addChar := func(v ssa.Value) {
+		if _, ok := chars[v]; !ok {
+			s.reads++
+		}
+		addDerived(v, v)
+	}
+	addView(fn.Params[arg])
+	argPositions := func(cc *ssa.CallCommon, v ssa.Value) []int {
+		var out []int
+		for i, a := range cc.Args {
+			if a == v {
+				out = append(out, i)
+			}
+		}
+		return out
+	}
+	for len(vwork) > 0 {
+		v := vwork[len(vwork)-1]
+		vwork = vwork[:len(vwork)-1]
+		refs := v.Referrers()
+		if refs == nil {
+			continue
+		}
+		for _, u := range nonDebug(*refs) {
+			switch t := u.(type) {
+			case *ssa.Slice:
+				if t.X == v {
+					addView(t)
+				} else {
+					undf("the text is used as a slice bound")
+				}
+			case *ssa.Convert:
+				if c20IsByteString(t.Type()) {
+					addView(t)
+				} else {
+					undf("the text is converted to %s", t.Type())
+				}
+			case *ssa.ChangeType:
+				addView(t)
+			case *ssa.MultiConvert:
+				addView(t)
+			case *ssa.Phi:
+				addView(t)
+			case *ssa.BinOp:
+				switch t.Op {
+				case token.ADD:
+					addView(t)
+				case token.EQL, token.NEQ:
+					// comparison of the text with another string: a read that decodes nothing
+				default:
+					undf("the text is an operand of %s", t.Op)
+				}
+			case *ssa.IndexAddr:
+				if t.X != v {
+					undf("the text is used as an index")
+					continue
+				}
+				for _, uu := range nonDebug(*t.Referrers()) {
+					if ld, ok := uu.(*ssa.UnOp); ok && ld.Op == token.MUL {
+						addChar(ld)
+					} else {
+						undf("an element address of the text is used by %T", uu)
+					}
+				}
+			case *ssa.Lookup:
+				undf("the text is used as a map key")
+			case *ssa.Index:
+				if t.X == v {
+					addChar(t)
+				} else {
+					undf("the text is used as an index")
+				}
+			case ssa.CallInstruction:
+				cc := t.Common()
+				if bi, ok := cc.Value.(*ssa.Builtin); ok {
+					if bi.Name() == "len" {
+						continue
+					}
+					undf("the text is passed to the builtin %s", bi.Name())
+					continue
+				}
+				cal := cc.StaticCallee()
+				if cal == nil || cc.IsInvoke() {
+					undf("the text is passed to a dynamically dispatched call")
+					continue
+				}
+				pos := argPositions(cc, v)
+				if len(pos) == 0 {
+					undf("the text is the callee or receiver of a call")
+					continue
+				}
+				if m.inPkg(cal) {
+					for _, k := range pos {
+						hs := m.textSummary(cal, k, depth+1)
+						s.reads += hs.reads
+						s.und = append(s.und, hs.und...)
+						s.bad = append(s.bad, hs.bad...)
+						for _, d := range hs.decs {
+							if decByCallee[d.name] == nil {
+								decByCallee[d.name] = d
+								s.decs = append(s.decs, d)
+							}
+						}
+						src := &c20Src{instr: t, what: "helper " + FuncKeyAny(cal)}
+						switch {
+						case hs.flagParam >= 0:
+							src.cell = cc.Args[hs.flagParam]
+						case hs.vIdx >= 0:
+							if cv := t.Value(); cv != nil {
+								src.res = ResultValue(cv, hs.vIdx)
+							}
+							src.resErr = hs.vErr
+						default:
+							if hs.reads > 0 {
+								undf("helper %s reads digits but has neither a bool/error result nor a flag parameter", FuncKeyAny(cal))
+							}
+							continue
+						}
+						if hs.reads > 0 {
+							srcs = append(srcs, src)
+						}
+					}
+					continue
+				}
+				name := c20CalleeName(cal)
+				if c20PrintSinks[name] {
+					continue
+				}
+				dec, ok := c20StdDecoders[name]
+				if !ok {
+					undf("the text is passed to %s, which is not in the checker's table of standard-library hex decoders", FuncKeyAny(cal))
+					continue
+				}
+				isText := false
+				for _, k := range pos {
+					if k == dec.arg {
+						isText = true
+					}
+				}
+				if !isText {
+					undf("the text is passed to %s in an unexpected argument position", name)
+					continue
+				}
+				if strings.HasPrefix(name, "strconv.Parse") {
+					if base, ok := ConstInt(cc.Args[1]); !ok || base != 16 {
+						undf("%s is called with a base that is not the constant 16", name)
+						continue
+					}
+				}
+				s.reads++
+				d := decByCallee[name]
+				if d == nil {
+					d = &c20Decoder{name: name + " (" + dec.reason + ")", pos: t.Pos(), std: true}
+					for i := 0; i < len(dec.accept); i++ {
+						d.ok[dec.accept[i]] = true
+					}
+					decByCallee[name] = d
+					s.decs = append(s.decs, d)
+				}
+				src := &c20Src{instr: t, what: name, resErr: true}
+				if cv := t.Value(); cv != nil {
+					src.res = ResultValue(cv, cal.Signature.Results().Len()-1)
+				}
+				srcs = append(srcs, src)
+			case *ssa.Return:
+				undf("the text is returned")
+			case *ssa.Panic:
+				// part of a panic message
+			case *ssa.MakeInterface:
+				if !c20OnlyPrinted(t) {
+					undf("the text is converted to an interface value that is not merely printed or logged")
+				}
+			default:
+				undf("the text is used by %T; cannot follow", u)
+			}
+		}
+	}
+	// every incoming edge of a phi / operand of a concatenation that is a view
+	// must itself be the text or a constant
+	for v := range views {
+		var ops []ssa.Value
+		switch t := v.(type) {
+		case *ssa.Phi:
+			ops = t.Edges
+		case *ssa.BinOp:
+			ops = []ssa.Value{t.X, t.Y}
+		}
+		for _, o := range ops {
+			if _, isC := o.(*ssa.Const); !isC && !views[o] {
+				undf("the text is merged with a value the analysis does not know (%s)", o.Name())
+			}
+		}
+	}
+	for len(cwork) > 0 {
+		c := cwork[len(cwork)-1]
+		cwork = cwork[:len(cwork)-1]
+		refs := c.Referrers()
+		if refs == nil {
+			continue
+		}
+		for _, u := range nonDebug(*refs) {
+			switch t := u.(type) {
+			case *ssa.Convert:
+				if _, _, ok := c20IntKind(t.Type()); ok {
+					addDerived(t, chars[c])
+				} else {
+					undf("a character of the text is converted to %s", t.Type())
+				}
+			case *ssa.ChangeType:
+				addDerived(t, chars[c])
+			case *ssa.BinOp:
+				// arithmetic with a constant before the digit function (case folding and the like)
+				_, cx := t.X.(*ssa.Const)
+				_, cy := t.Y.(*ssa.Const)
+				if _, _, isInt := c20IntKind(t.Type()); isInt && (cx || cy) {
+					addDerived(t, chars[c])
+				} else {
+					undf("a character of the text is consumed by %s in the function itself; only digit functions called on the character can be evaluated", t.Op)
+				}
+			case ssa.CallInstruction:
+				cc := t.Common()
+				cal := cc.StaticCallee()
+				if cal == nil || cc.IsInvoke() || !m.inPkg(cal) {
+					undf("a character of the text is passed to %s, which the analysis cannot evaluate", cc.Value.Name())
+					continue
+				}
+				pos := argPositions(cc, c)
+				if len(pos) != 1 {
+					undf("a character of the text is passed to %s in several positions", FuncKeyAny(cal))
+					continue
+				}
+				d, src := m.evalDecoder(cal, pos[0], t, c, chars[c])
+				key := fmt.Sprintf("%s/%d", d.name, pos[0])
+				if c != chars[c] {
+					key += fmt.Sprintf("@%d", len(decByCallee))
+				}
+				if decByCallee[key] == nil {
+					decByCallee[key] = d
+					s.decs = append(s.decs, d)
+				}
+				srcs = append(srcs, src)
+			default:
+				undf("a character of the text is consumed by %T in the function itself; only digit functions called on the character can be evaluated", u)
+			}
+		}
+	}
+	if s.reads == 0 {
+		return s // never looks at the text: nothing to judge here
+	}
+	// how does fn report the judgement?
+	for _, src := range srcs {
+		if src.cell == nil {
+			continue
+		}
+		if prm, ok := originValue(src.cell).(*ssa.Parameter); ok {
+			idx := -1
+			for i, p := range fn.Params {
+				if p == prm {
+					idx = i
+				}
+			}
+			if s.flagParam >= 0 && s.flagParam != idx {
+				undf("bad digits are reported through several flag parameters")
+			}
+			s.flagParam = idx
+		}
+	}
+	if s.flagParam >= 0 {
+		for _, src := range srcs {
+			if src.cell == nil {
+				undf("mixes a flag parameter with result-reported judgements; cannot follow")
+			} else if prm, ok := originValue(src.cell).(*ssa.Parameter); !ok || prm != fn.Params[s.flagParam] {
+				undf("mixes a flag parameter with a local flag; cannot follow")
+			}
+		}
+		return s
+	}
+	s.vIdx, s.vErr = c20VerdictIndex(fn.Signature)
+	if s.vIdx < 0 {
+		undf("reads digits but has neither a single bool/error result nor a flag parameter to report bad ones")
+		return s
+	}
+	for _, src := range srcs {
+		viol, und := m.unguarded(fn, src, s.vIdx, s.vErr)
+		if viol != "" {
+			s.bad = append(s.bad, FuncKeyAny(fn)+": "+viol)
+		}
+		if und != "" {
+			undf("%s", und)
+		}
+	}
+	return s
+}
+
+// c20Verdict rewrites a boolean v as "root, positive": v is true exactly when
+// (root is good) == positive, where a bool root is good when true, a loaded
+// flag is good when false and an error root is good when nil.
+func c20Verdict(v ssa.Value) (root ssa.Value, positive bool) {
+	positive = true
+	for i := 0; i < 6; i++ {
+		switch t := v.(type) {
+		case *ssa.UnOp:
+			if t.Op == token.NOT {
+				v, positive = t.X, !positive
+				continue
+			}
+			if t.Op == token.MUL && c20IsBoolPtr(t.X.Type()) {
+				return v, !positive
+			}
+		case *ssa.BinOp:
+			if t.Op == token.EQL || t.Op == token.NEQ {
+				for _, pr := range [][2]ssa.Value{{t.X, t.Y}, {t.Y, t.X}} {
+					c, ok := pr[1].(*ssa.Const)
+					if !ok {
+						continue
+					}
+					if c.Value == nil { // x == nil
+						if t.Op == token.NEQ {
+							positive = !positive
+						}
+						return pr[0], positive
+					}
+					if c.Value.Kind() == constant.Bool {
+						if constant.BoolVal(c.Value) != (t.Op == token.EQL) {
+							positive = !positive
+						}
+						v = pr[0]
+					}
+				}
+				if v != ssa.Value(t) {
+					continue
+				}
+			}
+		}
+		break
+	}
+	return v, positive
+}
+
+func c20InstrIndex(in ssa.Instruction) int {
+	for i, x := range in.Block().Instrs {
+		if x == in {
+			return i
+		}
+	}
+	return -1
+}
+
+// matches: root is src's judgement, read in block b after position minIdx.
+func (src *c20Src) matches(root ssa.Value, b *ssa.BasicBlock, minIdx int) bool {
+	if src.cell != nil {
+		ld, ok := root.(*ssa.UnOp)
+		if !ok || ld.Op != token.MUL || !(ld.X == src.cell || sameOrigin(ld.X, src.cell)) {
+			return false
+		}
+		// the flag must be read on the way, after the digits were judged
+		return ld.Block() == b && c20InstrIndex(ld) > minIdx
+	}
+	return src.res != nil && root == src.res
+}
+
+// unguarded searches for a path from src to an exit of fn that reports
+// success without having branched on (or returned) src's judgement.
+func (m *c20Model) unguarded(fn *ssa.Function, src *c20Src, vIdx int, vErr bool) (viol, und string) {
+	line := func(pos token.Pos) int { return m.p.Fset.Position(pos).Line }
+	type key struct{ b, from *ssa.BasicBlock }
+	seen := map[key]bool{}
+	var visit func(b, from *ssa.BasicBlock, minIdx int)
+	visit = func(b, from *ssa.BasicBlock, minIdx int) {
+		if viol != "" || len(b.Instrs) == 0 {
+			return
+		}
+		last := b.Instrs[len(b.Instrs)-1]
+		k := key{b, nil}
+		if _, isRet := last.(*ssa.Return); isRet {
+			k.from = from
+		}
+		if minIdx < 0 {
+			if seen[k] {
+				return
+			}
+			seen[k] = true
+		}
+		switch t := last.(type) {
+		case *ssa.Return:
+			if vIdx >= len(t.Results) {
+				return
+			}
+			rv := t.Results[vIdx]
+			if ph, ok := rv.(*ssa.Phi); ok && ph.Block() == b && from != nil {
+				for i, p := range b.Preds {
+					if p == from {
+						rv = ph.Edges[i]
+					}
+				}
+			}
+			if c, ok := rv.(*ssa.Const); ok {
+				success := false
+				if vErr {
+					success = c.Value == nil
+				} else {
+					success = c.Value != nil && c.Value.Kind() == constant.Bool && constant.BoolVal(c.Value)
+				}
+				if success {
+					viol = fmt.Sprintf("the return at line %d reports success on a path from %s (line %d) that never tests its verdict: a ref with characters outside the digit alphabet is accepted", line(t.Pos()), src.what, line(src.instr.Pos()))
+				}
+				return
+			}
+			if vErr {
+				if src.res != nil && src.resErr && rv == src.res {
+					return // hands the decoder's error on
+				}
+				switch x := rv.(type) {
+				case *ssa.MakeInterface:
+					return // a concrete error value: failure
+				case *ssa.Call:
+					if n := c20CalleeName(x.Call.StaticCallee()); n == "errors.New" || n == "fmt.Errorf" {
+						return
+					}
+				}
+				und = fmt.Sprintf("the error returned at line %d is neither nil, a fresh error, nor the verdict of %s; cannot follow", line(t.Pos()), src.what)
+				return
+			}
+			root, positive := c20Verdict(rv)
+			if positive && src.matches(root, b, minIdx) {
+				return // success exactly when the digits were good
+			}
+			und = fmt.Sprintf("the value returned at line %d is a computed boolean that is not the verdict of %s (line %d); cannot follow", line(t.Pos()), src.what, line(src.instr.Pos()))
+		case *ssa.If:
+			root, positive := c20Verdict(t.Cond)
+			isSrc := src.matches(root, b, minIdx)
+			for i, sc := range b.Succs {
+				if isSrc && (i == 0) == positive {
+					continue // the edge on which the digits are known good
+				}
+				visit(sc, b, -1)
+			}
+		case *ssa.Jump:
+			visit(b.Succs[0], b, -1)
+		}
+	}
+	visit(src.instr.Block(), nil, c20InstrIndex(src.instr))
+	return
+}
+
+// ---- the rule ----------------------------------------------------------------
+
+func c20CharSet(ok func(c int) bool) string {
+	var sb strings.Builder
+	for c := 0; c < 256; c++ {
+		if !ok(c) {
+			continue
+		}
+		e := c
+		for e+1 < 256 && ok(e+1) {
+			e++
+		}
+		if sb.Len() > 0 {
+			sb.WriteByte(' ')
+		}
+		switch {
+		case e == c:
+			sb.WriteString(c20CharName(c))
+		case e == c+1:
+			sb.WriteString(c20CharName(c) + " " + c20CharName(e))
+		default:
+			sb.WriteString(c20CharName(c) + "-" + c20CharName(e))
+		}
+		c = e
+	}
+	if sb.Len() == 0 {
+		return "(nothing)"
+	}
+	return sb.String()
+}
+
+func c20CharName(c int) string {
+	if c > 0x20 && c < 0x7f {
+		return "'" + string(rune(c)) + "'"
+	}
+	return fmt.Sprintf("%#02x", c)
+}
+
+func c20RuleHex(m *c20Model) {
+	p, r := m.p, m.r
+	const rule = "B-hex"
+	r.Floor(rule, 18)
+
+	// (1) the reference writer: Ref.appendString (String, StringMinusOne, MarshalJSON all go through it)
+	as := p.Func(c20Pkg, "Ref", "appendString")
+	sites, und, soft := m.emitSites(as)
+	und = append(und, soft...)
+	var E [16]byte
+	haveHi, haveLo, agree := false, false, true
+	for _, s := range sites {
+		if !haveHi && !haveLo {
+			E = s.e
+		} else if s.e != E {
+			agree = false
+		}
+		haveHi = haveHi || s.hi
+		haveLo = haveLo || s.lo
+	}
+	asKey := FuncKey(as) + "#digit-table"
+	switch {
+	case len(und) > 0:
+		r.Undecided(rule, asKey, p.Pos(as.Pos()), "cannot read how appendString turns digest bytes into characters: "+strings.Join(und, "; "))
+		return
+	case !haveHi || !haveLo:
+		r.Undecided(rule, asKey, p.Pos(as.Pos()), "appendString contains no place where both nibbles of a digest byte select a character from a constant table (or a known standard-library hex encoder); the digit alphabet of the text form cannot be extracted")
+		return
+	case !agree:
+		r.Violation(rule, asKey, p.Pos(as.Pos()), "appendString prints the two nibbles of a byte with different digit tables")
+		return
+	}
+	inE := map[byte]int{}
+	for n, c := range E {
+		if _, dup := inE[c]; dup {
+			r.Violation(rule, asKey, p.Pos(as.Pos()), fmt.Sprintf("the digit table %q prints two different nibbles with the same character %q: distinct refs have the same text form", string(E[:]), c))
+			return
+		}
+		inE[c] = n
+	}
+	isE := func(c int) bool { _, ok := inE[byte(c)]; return ok }
+	r.OKTable(rule, asKey, p.Pos(as.Pos()), fmt.Sprintf("the text form prints nibble n of every digest byte as %q[n], high nibble first (%s)", string(E[:]), sites[0].what))
+
+	// (2) every other writer / digit-by-digit comparer in the package uses the same table
+	seenFn := map[*ssa.Function]bool{as: true}
+	var others []*ssa.Function
+	for _, fn := range m.fns {
+		if !seenFn[fn] {
+			seenFn[fn] = true
+			others = append(others, fn)
+		}
+	}
+	// functions that are known to handle digest digits: Ref.Digest and the methods of the digest types
+	digitFn := map[*ssa.Function]bool{p.Func(c20Pkg, "Ref", "Digest"): true}
+	for _, T := range p.Implementers(p.Iface(c20Pkg, "digestType"), false) {
+		for _, name := range []string{"equalString", "hasPrefix"} {
+			if f := m.method(T, name); f != nil {
+				digitFn[f] = true
+			}
+		}
+	}
+	for _, fn := range others {
+		ss, und, soft := m.emitSites(fn)
+		if digitFn[fn] {
+			und = append(und, soft...)
+		}
+		if len(ss) == 0 && len(und) == 0 {
+			continue
+		}
+		key := FuncKey(fn) + "#digit-table"
+		site := p.Pos(fn.Pos())
+		if len(und) > 0 {
+			r.Undecided(rule, key, site, "cannot read a table lookup of this function: "+strings.Join(und, "; "))
+			continue
+		}
+		bad := ""
+		for _, s := range ss {
+			if s.e != E {
+				bad = fmt.Sprintf("line %d uses %s, which maps nibbles to %q, but String() prints them with %q: what this function writes or compares digit by digit is not the text form of the ref", p.Fset.Position(s.pos).Line, s.what, string(s.e[:]), string(E[:]))
+			}
+		}
+		r.Check(bad == "", rule, key, site, fmt.Sprintf("%d nibble→character site(s), all with the table of appendString", len(ss)), bad)
+	}
+
+	// (3) readers
+	checkDecoders := func(key, site, who string, sum *c20TextSum, exact bool) {
+		switch {
+		case len(sum.und) > 0:
+			r.Undecided(rule, key, site, who+": the analysis cannot follow how the text becomes digest bytes: "+strings.Join(c20Uniq(sum.und), "; "))
+			return
+		case sum.reads == 0 || len(sum.decs) == 0:
+			r.Undecided(rule, key, site, who+" never reads the characters of its text argument through a digit function or decoder the analysis knows")
+			return
+		}
+		var bad []string
+		bad = append(bad, sum.bad...)
+		var names []string
+		for _, d := range sum.decs {
+			names = append(names, d.name)
+			if d.err != "" {
+				r.Undecided(rule, key, site, fmt.Sprintf("%s decodes digits with %s, which cannot be evaluated over the 256 byte values: %s", who, d.name, d.err))
+				return
+			}
+			extra := c20CharSet(func(c int) bool { return d.ok[c] && !isE(c) })
+			missing := c20CharSet(func(c int) bool { return !d.ok[c] && isE(c) })
+			if missing != "(nothing)" {
+				bad = append(bad, fmt.Sprintf("%s rejects %s, which String() prints: refs containing these digits do not parse back from their own text form", d.name, missing))
+			}
+			if extra != "(nothing)" && exact {
+				bad = append(bad, fmt.Sprintf("%s accepts %s, which String() never prints: such a string parses as a ref of this supported family although r.String() != s, EqualString(s)/HasPrefix(s) are false for the ref it denotes, and the JSON form does not round-trip", d.name, extra))
+			}
+			if !d.std {
+				for n, c := range E {
+					if d.ok[c] && d.val[c] != int64(n) {
+						bad = append(bad, fmt.Sprintf("%s maps %q to %d but String() prints nibble %d as %q: parsing a ref's own text form yields a different ref", d.name, c, d.val[c], n, c))
+						break
+					}
+				}
+			}
+		}
+		detail := fmt.Sprintf("%s reads its digits only through %s; accepted characters = printed characters = %s, each mapped back to its nibble; every success exit lies behind the bad-digit verdict", who, strings.Join(names, ", "), c20CharSet(isE))
+		if !exact {
+			detail = fmt.Sprintf("%s reads its digits only through %s; every printed character %s is accepted and mapped back to its nibble; every success exit lies behind the bad-digit verdict (may accept more: its refs are never of a supported family, see B-known)", who, strings.Join(names, ", "), c20CharSet(isE))
+		}
+		r.Check(len(bad) == 0, rule, key, site, detail, strings.Join(c20Uniq(bad), "; "))
+	}
+	for _, f := range m.fams {
+		if f.meta == nil || m.byMeta[f.meta] != f {
+			continue
+		}
+		for _, fld := range []string{"ctors", "ctorb"} {
+			vs := f.field[fld]
+			if len(vs) != 1 {
+				continue // reported by B-family
+			}
+			fn := c20FuncValue(vs[0])
+			if fn == nil {
+				continue // reported by B-family
+			}
+			key := f.key() + "#" + fld + "-alphabet"
+			if len(fn.Params) != 1 {
+				r.Undecided(rule, key, p.Pos(f.pos), FuncKeyAny(fn)+" does not take exactly the text")
+				continue
+			}
+			checkDecoders(key, p.Pos(fn.Pos()), FuncKeyAny(fn), m.textSummary(fn, 0, 0), true)
+		}
+	}
+	// (3b) nothing but the table's constructors (and helpers only they call) builds a family's digest
+	for _, f := range m.fams {
+		if f.T == nil {
+			continue
+		}
+		key := f.key() + "#built-by-constructors"
+		allowed := map[*ssa.Function]bool{}
+		for _, fld := range []string{"ctor", "ctors", "ctorb"} {
+			if vs := f.field[fld]; len(vs) == 1 {
+				if fn := c20FuncValue(vs[0]); fn != nil {
+					allowed[c20Origin(fn)] = true
+				}
+			}
+		}
+		callers, valueUse := m.pkgCallGraph()
+		for changed := true; changed; {
+			changed = false
+			for _, fn := range m.fns {
+				o := c20Origin(fn)
+				if allowed[o] || valueUse[o] || len(callers[o]) == 0 || (fn.Object() != nil && fn.Object().Exported()) {
+					continue
+				}
+				all := true
+				for c := range callers[o] {
+					all = all && allowed[c]
+				}
+				if all {
+					allowed[o] = true
+					changed = true
+				}
+			}
+		}
+		var outside []string
+		n := 0
+		for _, fn := range m.fns {
+			for _, b := range fn.Blocks {
+				for _, in := range b.Instrs {
+					mi, ok := in.(*ssa.MakeInterface)
+					if !ok || !types.Identical(mi.X.Type(), f.T) || NamedOf(mi.Type()) == nil || NamedOf(mi.Type()).Obj().Name() != "digestType" {
+						continue
+					}
+					n++
+					if !allowed[c20Origin(TopFunc(fn))] {
+						outside = append(outside, fmt.Sprintf("%s (line %d)", FuncKeyAny(fn), p.Fset.Position(mi.Pos()).Line))
+					}
+				}
+			}
+		}
+		switch {
+		case len(outside) > 0:
+			r.Undecided(rule, key, p.Pos(f.pos), fmt.Sprintf("a %s value becomes a ref's digest in %s, which is not one of the family's ctor/ctors/ctorb constructors (nor a helper only they call): refs of family %q can be built on a path that the alphabet, length and table agreement rules do not cover", f.T.Obj().Name(), strings.Join(c20Uniq(outside), ", "), f.name))
+		case n == 0:
+			r.Undecided(rule, key, p.Pos(f.pos), fmt.Sprintf("found no place where a %s becomes a digest", f.T.Obj().Name()))
+		default:
+			r.OK(rule, key, p.Pos(f.pos), fmt.Sprintf("%d place(s) where a %s becomes a ref's digest, all inside the family's constructors (or helpers only they call)", n, f.T.Obj().Name()))
+		}
+	}
+
+	pu := p.Func(c20Pkg, "", "parseUnknown")
+	textArg := -1
+	for i, prm := range pu.Params {
+		if b, ok := prm.Type().Underlying().(*types.Basic); ok && b.Kind() == types.String && NamedOf(prm.Type()) == nil {
+			if textArg >= 0 {
+				textArg = -2
+			} else {
+				textArg = i
+			}
+		}
+	}
+	if textArg < 0 {
+		r.Undecided(rule, FuncKey(pu)+"#alphabet", p.Pos(pu.Pos()), "cannot tell which parameter of parseUnknown is the digit text")
+	} else {
+		checkDecoders(FuncKey(pu)+"#alphabet", p.Pos(pu.Pos()), FuncKey(pu), m.textSummary(pu, textArg, 0), false)
+	}
+
+	// (4) blob.Pattern recognises every printed digit
+	pat, _ := p.Pkg(c20Pkg).Types.Scope().Lookup("Pattern").(*types.Const)
+	if pat == nil || pat.Val().Kind() != constant.String {
+		brokenf("anchor unresolved: constant %s.Pattern", c20Pkg)
+	}
+	pkey := c20Pkg + ".Pattern#digit-class"
+	rx, err := regexp.Compile("^(?:" + constant.StringVal(pat.Val()) + ")$")
+	switch {
+	case err != nil:
+		// reported by B-name
+	case m.sep == "" || len(m.fams) == 0:
+		r.Undecided(rule, pkey, "?", "separator or families undetermined")
+	default:
+		var missing []int
+		for _, f := range m.fams {
+			if !f.sizeOK || f.size < 2 {
+				continue
+			}
+			n := int(2 * f.size)
+			zero := strings.Repeat(string(E[0]), n)
+			for _, c := range E {
+				for _, at := range []int{0, n / 2, n - 1} {
+					s := f.name + m.sep + zero[:at] + string(c) + zero[at+1:]
+					if !rx.MatchString(s) {
+						missing = append(missing, int(c))
+					}
+				}
+			}
+		}
+		miss := map[int]bool{}
+		for _, c := range missing {
+			miss[c] = true
+		}
+		r.Check(len(missing) == 0, rule, pkey, p.Pos(pat.Pos()),
+			fmt.Sprintf("blob.Pattern matches a full ref of every family with each of the printed digits %s at the first, a middle and the last digit position", c20CharSet(isE)),
+			fmt.Sprintf("blob.Pattern (%s) does not match refs containing the digit(s) %s, which String() prints: the get handler, share URLs and the describe scanner do not recognise such refs", constant.StringVal(pat.Val()), c20CharSet(func(c int) bool { return miss[c] })))
+	}
+}
+
+func c20Uniq(in []string) []string {
+	seen := map[string]bool{}
+	var out []string
+	for _, s := range in {
+		if !seen[s] {
+			seen[s] = true
+			out = append(out, s)
+		}
+	}
+	return out
+}
+
+func c20Short(s string) string {
+	if len(s) > 40 {
+		return s[:37] + "..."
+	}
+	return s
+}
+
+func c20Origin(f *ssa.Function) *ssa.Function {
+	if f == nil {
+		return nil
+	}
+	if o := f.Origin(); o != nil {
+		return o
+	}
+	return f
+}
+
+// pkgCallGraph: for every function of the package (generic instances folded
+// into their origin), the package functions that call it statically, and
+// whether it is also used as a value.
+func (m *c20Model) pkgCallGraph() (callers map[*ssa.Function]map[*ssa.Function]bool, valueUse map[*ssa.Function]bool) {
+	if m.cgCallers != nil {
+		return m.cgCallers, m.cgValueUse
+	}
+	callers, valueUse = map[*ssa.Function]map[*ssa.Function]bool{}, map[*ssa.Function]bool{}
+	for _, fn := range m.fns {
+		from := c20Origin(TopFunc(fn))
+		for _, b := range fn.Blocks {
+			for _, in := range b.Instrs {
+				var callee ssa.Value
+				if ci, ok := in.(ssa.CallInstruction); ok && !ci.Common().IsInvoke() {
+					callee = ci.Common().Value
+					if cf, ok := callee.(*ssa.Function); ok {
+						o := c20Origin(cf)
+						if callers[o] == nil {
+							callers[o] = map[*ssa.Function]bool{}
+						}
+						callers[o][from] = true
+					}
+				}
+				for _, op := range in.Operands(nil) {
+					if op == nil || *op == nil {
+						continue
+					}
+					if of, ok := (*op).(*ssa.Function); ok && *op != callee && m.inPkg(of) {
+						valueUse[c20Origin(of)] = true
+					}
+				}
+			}
+		}
+	}
+	m.cgCallers, m.cgValueUse = callers, valueUse
+	return
+}
+
+// c20PrintSinks: standard-library functions that only print or wrap their
+// arguments into a message (the result is not hex text that is decoded again).
+var c20PrintSinks = map[string]bool{
+	"fmt.Errorf": true, "fmt.Printf": true, "fmt.Print": true, "fmt.Println": true,
+	"fmt.Fprintf": true, "fmt.Fprint": true, "fmt.Fprintln": true,
+	"log.Printf": true, "log.Print": true, "log.Println": true,
+	"log.Fatalf": true, "log.Fatal": true, "log.Panicf": true,
+	"errors.New": true,
+}
+
+// c20OnlyPrinted: the interface value is used only as a panic value or as an
+// argument (directly or through the variadic slice) of a printing function.
+func c20OnlyPrinted(mi *ssa.MakeInterface) bool {
+	var sinkCall func(v ssa.Value, d int) bool
+	sinkCall = func(v ssa.Value, d int) bool {
+		refs := v.Referrers()
+		if refs == nil || d > 3 {
+			return false
+		}
+		for _, u := range nonDebug(*refs) {
+			switch t := u.(type) {
+			case *ssa.Panic:
+			case *ssa.Store:
+				ia, ok := t.Addr.(*ssa.IndexAddr)
+				if !ok || t.Val != v {
+					return false
+				}
+				al, ok := ia.X.(*ssa.Alloc)
+				if !ok {
+					return false
+				}
+				for _, uu := range nonDebug(*al.Referrers()) {
+					switch x := uu.(type) {
+					case *ssa.IndexAddr:
+					case *ssa.Slice:
+						if !sinkCall(x, d+1) {
+							return false
+						}
+					default:
+						return false
+					}
+				}
+			case ssa.CallInstruction:
+				if !c20PrintSinks[c20CalleeName(t.Common().StaticCallee())] {
+					return false
+				}
+			default:
+				return false
+			}
+		}
+		return true
+	}
+	return sinkCall(mi, 0)
 }
